@@ -242,7 +242,7 @@ Definition x_op (s : xstate) (o : op) : option (xstate * list nev) :=
       | None => None
       | Some c =>
           match c_state c with
-          | Some CClosed => Some (s, [NDone w WOkNone])
+          | Some CClosed | Some CFailed => Some (s, [NDone w WOkNone])     (* already gone: defer.succeed(None) *)
           | _ =>
               match tfind (cclosing s) o with
               | Some items =>
@@ -260,6 +260,9 @@ Definition x_op (s : xstate) (o : op) : option (xstate * list nev) :=
       match get_s o (base s) with
       | None => None
       | Some x =>
+          match s_state x with
+          | Some SClosed | Some SFailed => Some (s, [NDone w (WOkS o)])     (* already gone: defer.succeed(self) *)
+          | _ =>
           match tfind (sclosing s) o with
           | Some items =>
               Some ({| base := base s; cls := cls s; sls := sls s; gcl := gcl s; gsl := gsl s; wbs := wbs s; wcs := wcs s;
@@ -269,6 +272,7 @@ Definition x_op (s : xstate) (o : op) : option (xstate * list nev) :=
               Some ({| base := base s; cls := cls s; sls := sls s; gcl := gcl s; gsl := gsl s; wbs := wbs s; wcs := wcs s;
                        cclosing := cclosing s; sclosing := tset (sclosing s) o [CbWaiter w]; cmds := cmds s ++ [CmdS o w ok] |},
                     [NCmd 1 (s_id x)])
+          end
           end
       end
   | OAck =>
